@@ -56,6 +56,17 @@ func runC11(l *core.Ledger) {
 
 	l.Rule("C11-K9", "completion by exhaustion is exact: the expected count reaches the reply loop and is decremented once per skipped node (C02-T4 re-run), and one node contributes at most one error also through a streaming router (C07-E6 re-run)")
 	l.With(map[string]string{"C02-T4": "C11-K9"}, func() { c02T4(l, r) })
+	l.Rule("C11-K10", "every reply a node's handler produced reaches the quorum function as a reply (C05-M5 re-run: each reply of a stream handler carries metadata of its own - a copy of the request's): metadata shared between the replies of one call is rewritten by the handler's final status while earlier replies are still queued, and a level the node did send arrives as the node's error")
+	l.With(map[string]string{"C05-M5": "C11-K10"}, func() { c05M5(l, r) })
+	l.Rule("C11-K11", "every answer that has arrived is handled: one reply-map write and one quorum-function call per received reply, one error entry per received error (C01-R3/R4, C02-T2 re-run) - a batch loop that leaves on the first error drops the replies behind it, and a level the nodes have reached is never published")
+	if loops := findReplyLoops(l, r, "C11-K11"); len(loops) > 0 {
+		l.With(map[string]string{"C01-R3": "C11-K11", "C01-R4": "C11-K11", "C02-T2": "C11-K11"}, func() {
+			for _, rl := range loops {
+				c01Loop(l, r, rl)
+				c02Loop(l, r, rl)
+			}
+		})
+	}
 	if rm := buildRouterModel(l, r, "C11-K9"); rm != nil {
 		l.With(map[string]string{"C07-E6": "C11-K9"}, func() { checkDeliverDelete(l, r, rm, "C07-E6", true) })
 	}
